@@ -32,7 +32,7 @@ PROPS = {
                 assumptions=['lists shorter than 2^62 elements']),
     'C06': dict(modules=['NutsProofs.Props.C06'], suites=[S('db-set', (60, 150), (1500, 200))]),
     'C07': dict(modules=['NutsProofs.Props.C07'], suites=[S('db-zset', (60, 150), (1500, 200)), S('zset-ds', (60, 300), (1500, 500))]),
-    'C08': dict(modules=['NutsProofs.Props.C08'], suites=[S('db-mixed', (60, 200), (1500, 250))]),
+    'C08': dict(modules=['NutsProofs.Props.C08'], suites=[S('db-mixed', (60, 200), (1500, 250)), S('db-list', (40, 200), (800, 250)), S('db-structs', (30, 200), (600, 250))]),
     'C09': dict(modules=['NutsProofs.Props.C09'], suites=[S('db-crash', (40, 120), (800, 200)), S('db-kv', (30, 150), (500, 200))]),
     'C10': dict(modules=['NutsProofs.Props.C10'], suites=[S('db-crash', (50, 120), (1200, 200))]),
     'C11': dict(modules=['NutsProofs.Props.C11'], suites=[S('db-crash', (50, 120), (1200, 200)), S('db-mcrash', (40, 150), (800, 200))]),
